@@ -4,7 +4,9 @@
 
    nodes : comma separated, model index order; node = k:pkg:name:tags:plats:bin:deps:inputs
            k = t|a, pkg/name hex, tags/plats/inputs = hex joined by '.', bin = 0|1,
-           deps = decimal indices joined by '.'
+           deps = decimal indices joined by '.'; inputs = the literal inputs AS SPELLED in the BUILD file
+   owners: owners TAB <nodes> TAB <cfg> TAB <files>, files = hex joined by '.': the arguments as typed, relative to
+           the workspace root, not cleaned; owners-verbatim = the comparison with the spelling (Select.owners_verbatim)
    cfg   : cur:pats:tags:excl:type:plat:all   (cur/plat hex, pats/tags/excl hex joined by '.',
            type = test|no_test|bin_output|all, all = 0|1); pats are the raw command line
            arguments, parsed by Label.parse_patterns_or_all like the commands do
@@ -140,6 +142,11 @@ let handle (f : string list) : string =
   | ["owners"; nodes; _; files] ->
     let (ns, _) = parse_nodes nodes in
     "lines\t" ^ lines (owners ns (List.map fld (split_dot files)))
+  | ["owners-verbatim"; nodes; _; files] ->
+    (* not the code: the comparison with the input as spelled (C20_owners_verbatim_refuted); the check counts the
+       queries on which it differs from `owners` *)
+    let (ns, _) = parse_nodes nodes in
+    "lines\t" ^ lines (owners_verbatim ns (List.map fld (split_dot files)))
   | ["listq"; nodes; cfg] ->
     let (ns, g) = parse_nodes nodes in
     with_cfg cfg (fun c -> "lines\t" ^ lines (list_query c ns g))
